@@ -147,7 +147,18 @@ def fit_into_array(
     return output
 
 
-@lru_cache(maxsize=128)  # One must add parameter 'maxsize' for Python 3.7
+def _file_identity(filename: str | Path) -> tuple[int, int, int] | None:
+    """Identify the current content of a local file (``None`` if it cannot be examined)."""
+    from pyxel.util import resolve_with_working_directory
+
+    try:
+        stat = Path(resolve_with_working_directory(filename)).expanduser().stat()
+    except (OSError, ValueError):
+        return None
+
+    return stat.st_ino, stat.st_size, stat.st_mtime_ns
+
+
 def load_cropped_and_aligned_image(
     shape: tuple[int, ...],
     filename: str | Path,
@@ -159,6 +170,8 @@ def load_cropped_and_aligned_image(
     allow_smaller_array: bool = True,
 ) -> np.ndarray:
     """Load image from file and fit to detector shape.
+
+    The result is cached for as long as the file is not modified.
 
     Parameters
     ----------
@@ -178,6 +191,31 @@ def load_cropped_and_aligned_image(
     -------
     cropped_and_aligned_image: ndarray
     """
+    identity = _file_identity(filename)
+    if identity is None:
+        # Remote or missing file: its content cannot be identified, do not use the cache
+        return _load_cropped_and_aligned_image.__wrapped__(
+            shape, filename, position_x, position_y, align, allow_smaller_array
+        )
+
+    return _load_cropped_and_aligned_image(
+        shape, filename, position_x, position_y, align, allow_smaller_array, identity
+    )
+
+
+@lru_cache(maxsize=128)  # One must add parameter 'maxsize' for Python 3.7
+def _load_cropped_and_aligned_image(
+    shape: tuple[int, ...],
+    filename: str | Path,
+    position_x: int,
+    position_y: int,
+    align: (
+        Literal["center", "top_left", "top_right", "bottom_left", "bottom_right"] | None
+    ),
+    allow_smaller_array: bool,
+    identity: tuple[int, int, int] | None = None,
+) -> np.ndarray:
+    """Load image from file and fit to detector shape, cached per content of the file."""
     # Load 2d image (which can be smaller or
     #                         larger in dimensions than detector imaging area)
     from pyxel.inputs import load_image
